@@ -382,6 +382,9 @@ impl GraphEngine {
     }
 
     pub fn search_vector(&self, query: &[f32], k: usize) -> Result<Vec<(InternalNodeId, f32)>> {
+        // Taken before the pager: the snapshot reads the id map, which the commit path
+        // locks before the pager.
+        let snapshot = self.begin_read();
         #[cfg(nervusdb_verif)]
         crate::verif_hooks::lock("pager", "write", 0);
         let mut pager = self.pager.write().unwrap();
@@ -392,7 +395,23 @@ impl GraphEngine {
         let mut idx = self.vector_index.lock().unwrap();
         #[cfg(nervusdb_verif)]
         let _vt_idx = crate::verif_hooks::lock_acquired("vector_index", "lock");
-        idx.search(&mut *pager, query, k)
+
+        // The index keeps the vectors of deleted nodes. Leave those out, asking the
+        // index for more candidates until k live ones are found or it has no more.
+        let mut fetch = k;
+        loop {
+            let hits = idx.search(&mut *pager, query, fetch)?;
+            let exhausted = hits.len() < fetch;
+            let live: Vec<(InternalNodeId, f32)> = hits
+                .into_iter()
+                .filter(|(id, _)| !snapshot.is_tombstoned_node(*id))
+                .take(k)
+                .collect();
+            if live.len() >= k || exhausted {
+                return Ok(live);
+            }
+            fetch = fetch.saturating_mul(2);
+        }
     }
 
     pub fn scan_i2e_records(&self) -> Vec<I2eRecord> {
